@@ -21,6 +21,34 @@ import (
 
 func init() { Registry["C12"] = c12 }
 
+type carrier struct {
+	t     *schema.Type
+	tb    *schema.Table
+	union string
+	key   any
+}
+
+// frameCarrying finds a frame type whose discriminator table registers owner as a body.
+func frameCarrying(e *Env, owner *schema.Type) *carrier {
+	for _, q := range e.S.TableNames() {
+		tb := e.S.Tables[q]
+		ft := e.S.Lookup(tb.Mod.Pkg, tb.Owner)
+		if ft == nil || ft.Pkg != owner.Pkg || ft == owner {
+			continue
+		}
+		for _, en := range tb.Entries {
+			if en.Type == owner.Name {
+				for _, f := range ft.Fields {
+					if f.Kind == "union" && f.Table == tb.Name {
+						return &carrier{ft, tb, f.Name, en.Key}
+					}
+				}
+			}
+		}
+	}
+	return nil
+}
+
 // dynType names the dynamic type held by an interface-typed field ("<nil>" when it holds nothing).
 func dynType(v reflect.Value) string {
 	if !v.IsValid() || ((v.Kind() == reflect.Interface || v.Kind() == reflect.Pointer) && v.IsNil()) {
@@ -426,6 +454,24 @@ func c12(e *Env) {
 			r.Violate("C12/non-filling-frame-guessed-a-body/"+tb.QName, "C12/non-filling-frame-guessed-a-body/"+tb.QName, map[string]any{"type": owner.QName, "key": fmtKey(key), "error": fmt.Sprint(eerr)})
 		} else {
 			acc.merge(map[string]int{"unregistered:encode-nil-body-ok": 1})
+		}
+		// ... and the same message travelling inside its frame: the frame's Encode must report the refusal too
+		if tc.uf.Fill && p == nil {
+			if fr := frameCarrying(e, owner); fr != nil {
+				m2 := g.Value(owner)
+				setKeyField(m2, tc.uf.Key, key)
+				fv2 := reflect.ValueOf(m2).Elem().FieldByName(tc.uf.Name)
+				fv2.Set(reflect.Zero(fv2.Type()))
+				frame := (&gen.Gen{S: e.S, C: e.C, R: g.R, O: &gen.Opts{NoNilBody: true, ForceKey: map[string]any{fr.tb.QName: fr.key}}}).Value(fr.t)
+				reflect.ValueOf(frame).Elem().FieldByName(fr.union).Set(reflect.ValueOf(m2))
+				_, ferr, fp := EncodeFresh(frame)
+				r.Evals(1)
+				if fp == nil && ferr == nil {
+					r.Violate("C12/frame-hides-refusal-of-unregistered-key/"+tb.QName, "C12/frame-hides-refusal-of-unregistered-key/"+tb.QName, map[string]any{"frame": fr.t.QName, "body": owner.QName, "table": tb.QName, "key": fmtKey(key), "observed": "the body cannot be completed (no extension is registered for the key) yet the enclosing frame's Encode returned nil"})
+				} else {
+					acc.merge(map[string]int{"unregistered:frame-reports-body-refusal": 1})
+				}
+			}
 		}
 	}
 	type chunk struct {
